@@ -1351,6 +1351,12 @@ def model_compare(ctx, exp: Experiment, r, drv) -> None:
     if reply == "bad-op":
         ctx.disagree("model driver rejected the workload line", {"line": " ".join(toks)[:400]})
         return
+    for ent in reply.split(";"):                      # which branches of the model's step function this run went through
+        lab0 = ent.split("|")[0]
+        if lab0 and not lab0.startswith(("order=", "acks=", "init")):
+            ctx.count("model_step:" + lab0)
+    if any("/" in t_ for t_ in toks):
+        ctx.count("model_step:cut-call")
     tl = [e for e in (parse_timeline_compact(reply) if long_wl else parse_timeline(reply)) if e[0] != "kk"]
     model_labels = [e[0] for e in tl[1:]]
     obs = list(tr.labels)
@@ -1487,6 +1493,7 @@ def open_compare(ctx, exp, r, drv):
     line = "openok %d %d %d %d %d" % (cls, st["option"], st["version"], st["ver"], st["col"])
     rep = drv.ask(line)
     real_ok = r["dump"].get("open") == "ok"
+    ctx.count("open_compared")
     ctx.count("open_state:opt%d_ver%d_v%d_col%d:%s" % (st["option"], st["version"], st["ver"], st["col"],
                                                         "ok" if real_ok else "fails"))
     if rep.startswith("ok") != real_ok:
@@ -1680,9 +1687,14 @@ def scripted_foreign(rng):
         return dict({"op": "foreign", "sk": _hx(sk), "hashes": [_hx(rb(rng, 32)) for _ in range(n)],
                      "after": [None] + list(range(n - 1)), "how": how, "drop_tokens": False,
                      "atts": [[0, _hx(aks[0])], [0, _hx(aks[1])], [n - 1, _hx(aks[0])]]}, **kw)
+    sk4, sk5 = (b"LibNaCLSK:" + rb(rng, 64) for _ in range(2))
     ops = [f(sk1, 4, "add_credential", order=[3, 2, 1, 0]), f(sk2, 3, "substantiate", subset=[0, 1, 2]),
-           f(sk3, 2, "add_attestation", subset=[1])]
-    return Experiment("manager", [ops], None, "scripted-foreign", extra={"pubs": [pub_of(_hx(k)) for k in (sk1, sk2, sk3)]})
+           f(sk3, 2, "add_attestation", subset=[1]), f(sk4, 2, "add_metadata", subset=[1]),
+           dict(f(sk5, 2, "substantiate", subset=[0, 1]), drop_tokens=True)]
+    for o in ops:
+        o["_class"] = "foreign_how:" + o["how"] + ("-no-tokens" if o.get("drop_tokens") else "")
+    return Experiment("manager", [ops], None, "scripted-foreign",
+                      extra={"pubs": [pub_of(_hx(k)) for k in (sk1, sk2, sk3, sk4, sk5)]})
 
 
 def reload_bound():
@@ -1758,6 +1770,8 @@ def scripted(rng):
     return [
         Experiment("identity", [ident], None, "scripted-identity", pks=[_hx(pk), _hx(pk2)]),
         Experiment("identity", [ident[:3], ident[3:]], None, "scripted-identity-2phase", pks=[_hx(pk), _hx(pk2)]),
+        Experiment("identity", [ident[:4], ident[4:]], None, "scripted-identity-restart", pks=[_hx(pk), _hx(pk2)],
+                   kills=[46]),          # the first process is killed inside its third insert, the second continues
         Experiment("identity", [blocks], None, "scripted-blocks", pks=[_hx(pk), _hx(pk2)]),
         Experiment("identity", [nested], None, "scripted-nested-blocks", pks=[_hx(pk), _hx(pk2)]),
         Experiment("wallet", [wallet], None, "scripted-wallet", hashes=[_hx(h1), _hx(h2)]),
@@ -2001,10 +2015,12 @@ def run(ctx):
         for i in range(ctx.scale(2, 8)):
             ops, sks = gen_randsig_ops(rng, rng.choice([2, 4, 6]))
             api_exps.append(Experiment("manager", [ops], None, f"randsig-{i}", sks=sks))
+            ctx.count("randsig:workloads")
         for i in range(ctx.scale(2, 8)):
             ops, pks = gen_thread_ops(rng, ctx.scale(120, 400))
             api_exps.append(Experiment("identity", [ops], None, f"threads-{i}", pks=pks,
                                        extra={"threads": rng.choice([2, 4, 8])}))
+            ctx.count("threads:%d" % api_exps[-1].extra["threads"])
         for e in api_exps:
             exhaustive(runner, e, rng=rng, samples=ctx.scale(4, 12))
         ctx.extra["t_generated_s"] = round(ctx.elapsed(), 1)
@@ -2031,8 +2047,62 @@ def run(ctx):
         runner.run_all(kills)
         ctx.extra["t_stores_s"] = round(ctx.elapsed(), 1)
         ctx.extra["crash_runs"] = runner.n
+        for e_ in scr:
+            for ph_ in e_.ops_phases:
+                for o_ in ph_:
+                    if "_class" in o_:
+                        ctx.count(o_["_class"])
     finally:
         runner.close()
+    coverage_gate(ctx)
+
+
+# every branch class of the hand-written model definitions and every workload / kill / file-state class the design lists
+# must have been reached in a run that is about to be reported green; a silent loss of coverage is an infrastructure
+# error (exit 2), not a pass.  Prefix -> what it stands for.
+REQUIRED_CLASSES = {
+    # insertRow / stepPrim / doCommit / enter / exit / exitExc / kill, as executed by the model on observed workloads
+    "model_step:X": "insertRow: record appended", "model_step:Xi": "insertRow: OR IGNORE on an existing key",
+    "model_step:X!": "insertRow: plain INSERT on an existing key raises", "model_step:C": "doCommit: idle path",
+    "model_step:D": "doCommit: deferred path", "model_step:R": "ret", "model_step:en": "enter",
+    "model_step:ex": "exit without pending commits", "model_step:exC": "exit that commits", "model_step:xx": "exitExc",
+    "model_step:kk": "kill + recover between process lifetimes", "model_step:cut-call": "call cut short by a kill",
+    # the same branches on the implementation side
+    "label:X": "", "label:Xi": "", "label:X!": "", "label:C": "", "label:R": "", "label:en": "", "label:ex": "",
+    "label:xx": "", "block_depth:2": "nested batches", "block_depth:3": "nested batches",
+    # kills
+    "kill:point": "", "kill:fsize": "", "kill:timed": "", "kill:none": "", "killed@open": "", "killed@workload": "",
+    "killed@after-workload": "", "earlier_processes_killed:": "kill/restart cycles", "processes:2": "",
+    # openStmts / schemaStep / runTx: the file states open() branches on
+    "open_state:opt0_ver0_v0_col1": "no file / no tables yet", "open_state:opt1_ver0_v0_col1": "option table, no version row",
+    "open_state:opt1_ver1_v1_col1": "identity file", "open_state:opt1_ver1_v2_col1": "wallet file, latest version",
+    "open_state:opt1_ver1_v1_col0": "wallet version-1 file (upgrade branch)",
+    "open_state:opt1_ver0_v0_col0": "version-1 table, version row missing (detection branch)",
+    "open_state:opt0_ver0_v0_col0": "version-1 table, no option table (detection branch)",
+    # reload / Causal
+    "reload_compared:101-250": "store above the waiting-buffer bound", "causal:true": "",
+    "causal_excluded:": "known classes excluded from Causal",
+    # workload classes
+    "kind:identity": "", "kind:wallet": "", "kind:manager": "", "foreign_how:add_credential": "",
+    "foreign_how:substantiate": "", "foreign_how:substantiate-no-tokens": "", "foreign_how:add_metadata": "",
+    "foreign_how:add_attestation": "", "object_readback:tok": "", "object_readback:md": "", "object_readback:att": "",
+    "object_readback:watt": "", "call_raised:IntegrityError": "", "store_shape:chain": "", "threads:": "threaded workloads",
+    "randsig:": "randomised-signature keys", "model:compared": "", "open_compared": "",
+}
+
+
+def coverage_gate(ctx):
+    from vlib import InfraError
+    if ctx.broken or ctx.disagreements or new_failures(ctx):
+        return                       # the run is red anyway; under a mutation classes may legitimately vanish
+    need = dict(REQUIRED_CLASSES)
+    if not ctx.model_ok:
+        need = {k: v for k, v in need.items() if not k.startswith(("model_step:", "model:", "open_compared", "causal",
+                                                                   "reload_compared"))}
+    missing = [k for k in need if not any(c.startswith(k) and n > 0 for c, n in ctx.counts.items())]
+    ctx.extra["coverage_gate"] = {"required": len(need), "missing": missing}
+    if missing:
+        raise InfraError("C19 coverage gate: no run reached " + ", ".join(missing))
 
 
 def new_failures(ctx):
@@ -2048,12 +2118,14 @@ def search(ctx, reason):
     rng = ctx.rng
     runner = Runner(ctx, use_model=False)
     try:
+        # the scripted workloads were already killed at every event index by run(); here: un-killed probe plus
+        # mid-write kills only (what run() samples thinly), then new generated workloads at every event index
         for exp in scripted(rng):
-            probe = exhaustive(runner, exp)
-            fsize_runs(runner, exp, probe, rng, 30)
+            probe = runner.run_all([with_kill(exp, {"mode": "none"})])[0]
+            fsize_runs(runner, exp, probe, rng, 24)
             if new_failures(ctx):
                 return
-        for i in range(10):
+        for i in range(8):
             kind = rng.choice(["identity", "wallet", "manager"])
             if kind == "identity":
                 ops, pks = gen_identity_ops(rng, 12, big=True)
